@@ -63,8 +63,8 @@ CHECKS = {
                      'Legendre\'s equation with P(1)=1; zonal harmonics = sqrt((2l+1)/(4 pi)) P_l(cos theta) for any degree list up to 12; '
                      'Fourier column order; zonal and Fourier Laplacians exact'),
     'C16': dict(engine=ENGINE_B, technique='machine-checked proof (Coq) about a hand-written executable model + in-kernel correspondence with the implementation under real fit()', ref='DESIGN.md section 7 C16',
-                note='trusted: Coq kernel, Reals axioms + Flocq for the Eve theorems (listed in evidence; the other theorems are axiom-free), hand-written model tied to the real classes on every run by vm_compute cases under real fit() sequences plus an independent documented-predicate oracle; modelled not verified: float64 log/div/+EPS in EveCallback, IEEE comparisons of integer-valued scripted metrics, optimiser step rule; see known_findings.d/C16.json',
-                text='Coq theorems on an executable model of callbacks.py / BaseMonitor.to_callback / the fit loop: period, interval, first/last predicates for all epochs and parameters; And/Or/Not/Xor equal Boolean and/or/not/odd-parity for every list length and nesting depth (structural induction); stop ends fit after the firing epoch; set-once/reset; SetOptimizer parameter list (partial: nets not sharing parameters); repeated-metric counter = history streak for every history and relation when evaluated once per epoch from the first epoch; EveCallback n = min(n_0*2^k, n_max) over R with int() as truncation away from doubling boundaries'),
+                note='trusted: Coq kernel, Reals axioms + Flocq for the Eve theorems (listed in evidence; the other theorems are axiom-free), hand-written model tied to the real classes on every run by vm_compute cases under real fit() sequences plus an independent documented-predicate oracle; modelled not verified: float64 log/div/+EPS in EveCallback, IEEE comparisons of integer-valued scripted metrics, optimiser step rule; one open finding (custom metric history key), see known_findings.d/C16.json',
+                text='Coq theorems on an executable model of callbacks.py / BaseMonitor.to_callback / the fit loop: period, interval, first/last predicates for all epochs and parameters; And/Or/Not/Xor equal Boolean and/or/not/odd-parity for every list length and nesting depth (structural induction); stop ends fit after the firing epoch; set-once/reset; SetOptimizer parameter list holds every distinct parameter exactly once (also for shared nets); repeated-metric callbacks fire iff the latest n history pairs (entries for Below/Above) satisfy the relation, for every history, attachment time and expression tree; EveCallback n = min(n_0*2^k, n_max) over R with int() as truncation away from doubling boundaries'),
     'C20': dict(engine=ENGINE_A, technique='machine-checked proof (Coq): theorems about models regenerated from source by translators + correspondence-validated hand model', ref='DESIGN.md section 7 C20',
                 note='loops and history are a hand model (coq/model/Legacy.v) validated each run against the real _solve_* with a spying approximator; trusted: Coq kernel, Reals/Coquelicot axioms, pyfront + the sampler translator in t_C20.py (validated each run: float64, interval goals, generated steps evaluated in Coq over Q against the real generators under a scripted torch.rand); modelled not verified: IEEE rounding, autograd, linspace/cartesian_prod/squeeze/slicing, rand in [0,1), randperm; see known_findings.d/C20.json',
                 text='Coq theorems: legacy approximators equal u0 (and du/dt = u0dot, also as is_derive) at t=0 for every network, about terms regenerated from temporal.py; every draw (induction on the draw index, every oracle in [0,1)) of the 1-D, temporal, rectangle and segment samplers lies in its stratum/cell, about step functions regenerated from the generator source (loop-carried variables detected by liveness); mini-batches partition any permutation for batch_size>=1 incl. non-divisible sizes and the loop terminates; one history entry per epoch per series'),
